@@ -40,6 +40,24 @@ def toTArg : Json → TArg
   | .arr xs => .many (xs.toList.map toItem)
   | j => .one (toItem j)
 
+/-- wire JSON -> JVal: integers only; an object travels as `{"o": [[key, value], ...]}` (member order kept) -/
+partial def toJ : Json → Option FimVerif.JVal
+  | .null => some .null
+  | .bool b => some (.bool b)
+  | .num n => match (Json.num n).getInt? with
+    | .ok i => some (.int i)
+    | .error _ => none
+  | .str s => some (.str s)
+  | .arr xs => (xs.toList.mapM toJ).map FimVerif.JVal.arr
+  | .obj kvs =>
+    match kvs.get? "o" with
+    | some (.arr items) =>
+      (items.toList.mapM fun (it : Json) =>
+        match it with
+        | Json.arr #[Json.str k, v] => (toJ v).map fun v' => (k, v')
+        | _ => none).map FimVerif.JVal.obj
+    | _ => none
+
 def reply {α} (r : Res α) (f : α → Json) : Json :=
   match r with
   | .ok v => ok (f v)
@@ -72,6 +90,11 @@ def handle (j : Json) : Json :=
   | .arr #[.str "boot", v] => reply (setBoot (toVal v)) (fun o => match o with | none => Json.null | some s => Json.str (String.ofList s))
   | .arr #[.str "jsonstr", .str cls, .num n, .bool valid] => reply (jsonStr cls n.mantissa.toNat valid) (fun _ => Json.bool true)
   | .arr #[.str "jsonobj", .str cls, .bool dok, .num n] => reply (jsonObj cls dok n.mantissa.toNat) (fun _ => Json.bool true)
+  | .arr #[.str "jsontext", .str cls, .str text] => reply (jsonText cls text) (fun _ => Json.bool true)
+  | .arr #[.str "jsonval", .str cls, v] =>
+    match toJ v with
+    | some j => reply (jsonValue cls j) (fun t => Json.num t.length)
+    | none => err "bad-args"
   | .arr #[.str "match", .str which, .str s] =>
     -- raw matcher on one named regex (used to compare the matcher itself with CPython's re)
     match (FimVerif.Gen.Validators.labelRegex.lookup which) with
